@@ -534,6 +534,21 @@ func (x *run) doStep(rs *repState, s *sim.Step, pre *obs) error {
 		} else {
 			err = x.guard("remove", func() error { return x.stepRemove(rs, s) })
 		}
+	case "addremote":
+		// a remote configured later, on the handle that is already open and has already been used
+		for _, h := range x.w.Hubs {
+			known := false
+			for _, n := range rs.r.Remotes {
+				if n == h.Name {
+					known = true
+				}
+			}
+			if !known {
+				err = rs.r.AddRemote(h.Name, h)
+				x.probe("remote_added_later")
+				break
+			}
+		}
 	case "foreign":
 		err = x.guard("foreign", func() error { return x.stepForeign(rs, s) })
 	case "wipe":
@@ -1185,7 +1200,9 @@ func (x *run) partialFetch(rs *repState, remote string, preTrack map[string]stri
 // replica's own identities are touched (diverged identities never converge by design).
 func (x *run) stepIdentMut(rs *repState, s *sim.Step) error {
 	var pool []entity.Id
-	if x.on("C09") {
+	if x.on("C09") || (x.on("C02") && s.N%4 == 0) {
+		// any identity the replica knows, also somebody else's: two replicas mutating one identity
+		// make it diverge, and a pull then meets a refused identity among others that must still merge
 		pool = x.knownIdents(rs)
 	} else {
 		for _, id := range x.knownIdents(rs) {
